@@ -425,11 +425,34 @@ fn run_eq_hash(ctx: &mut Ctx) {
                 cs.nontrivial(i);
                 cs.outcome("compared");
                 let ta = TooDee::from_vec(a.0, a.1, a.2.clone());
+                #[allow(clippy::eq_op)]
+                if !(ta == ta) || ta != ta {
+                    cs.fail("eq:wrong", format!("{}x{} {:?} does not equal itself", a.0, a.1, a.2));
+                }
+                // cells whose equality is not reflexive: 1 stands for NaN. Equal exactly when the dimensions are equal
+                // and the cells are pairwise equal - also when both operands are the same object
+                let fa: TooDee<f64> = TooDee::from_vec(a.0, a.1, a.2.iter().map(|x| if *x == 1 { f64::NAN } else { 0.0 }).collect());
+                let has_nan = a.2.contains(&1);
+                #[allow(clippy::eq_op)]
+                if (fa == fa) == has_nan || (fa != fa) != has_nan || (fa == fa.clone()) == has_nan {
+                    cs.fail("eq:wrong", format!("{}x{} array of f64 {:?}: x == x is {}, x == x.clone() is {}", a.0, a.1, fa.data(), fa == fa, fa == fa.clone()));
+                }
+                if a.0 > 0 {
+                    let v1 = fa.view((0, 0), (a.0, a.1));
+                    #[allow(clippy::eq_op)]
+                    if (v1 == v1) == has_nan {
+                        cs.fail("eq:view-wrong", format!("full view of the {}x{} array of f64 {:?}: v == v is {}", a.0, a.1, fa.data(), v1 == v1));
+                    }
+                }
                 for b in all.iter() {
                     let mut vb = Vec::with_capacity(b.2.len() + 3);
                     vb.extend_from_slice(&b.2);
                     let tb = TooDee::from_vec(b.0, b.1, vb);
                     let same = a == b;
+                    let fb: TooDee<f64> = TooDee::from_vec(b.0, b.1, b.2.iter().map(|x| if *x == 1 { f64::NAN } else { 0.0 }).collect());
+                    if (fa == fb) != (same && !has_nan) {
+                        cs.fail("eq:wrong", format!("f64 arrays {}x{} {:?} == {}x{} {:?} evaluates to {}", a.0, a.1, fa.data(), b.0, b.1, fb.data(), fa == fb));
+                    }
                     if (ta == tb) != same || (ta != tb) == same {
                         cs.fail("eq:wrong", format!("{}x{} {:?} == {}x{} {:?} evaluates to {}", a.0, a.1, a.2, b.0, b.1, b.2, ta == tb));
                     }
